@@ -82,7 +82,11 @@ pub fn gen_lines(rng: &mut Rng, n: usize, with_stop_inside: bool) -> Vec<Line> {
             0 => Line::Pause,
             1 => Line::Start,
             2 | 3 | 4 | 5 => Line::U8(*rng.pick(&addrs), if rng.chance(1, 2) { *rng.pick(&[0u8, 0xff, 0x0f, 0xf0, 0xaa, 0x55]) } else { rng.u8() }),
-            6 | 7 => Line::Port(1 + rng.below(11) as u8, rng.u8()),
+            6 | 7 => {
+                // mostly ports 1-B; sometimes a well-formed line for a port that does not exist (ignored)
+                let p = if rng.chance(1, 8) { *rng.pick(&[0u8, 12, 13, 0x7f, 0x80, 0xff]) } else { 1 + rng.below(11) as u8 };
+                Line::Port(p, rng.u8())
+            }
             _ => {
                 let mut j = if rng.chance(1, 4) {
                     // numbers that do not fit their field but whose low bits would be a well-formed
